@@ -226,6 +226,7 @@ func c15(c *Ctx) {
 	c15WireIntegersSignExtended(c, "C15.13/wire-integers-are-sign-extended")
 	c15BinaryResultsCoverEveryType(c, "C15.14/binary-results-cover-every-type")
 	c15TempRowCodec(c, "C15.15/sorted-rows-round-trip")
+	c15LiteralsEscapeTheirDelimiter(c, "C15.16/string-literals-escape-their-delimiter")
 	c15ValueUsedOnSuccessOnly(c, "C15.12/fallible-getter-value-used-on-success-only", func(f *ssa.Function) bool {
 		// the converters between the store's types and their messages (module-wide the shape also matches partial results
 		// such as the byte count of a failed Write, returned on purpose)
@@ -919,4 +920,51 @@ func c15TempRowCodec(c *Ctx, r string) {
 	if n < 2 {
 		c.undecided(r, "floor", "the row codec of the file sorter was not found")
 	}
+}
+
+// c15LiteralsEscapeTheirDelimiter: defaults and CHECK expressions are kept in the catalog as SQL text (C15.9). A string
+// literal is rendered between quotes: a quote INSIDE the value has to be doubled (what the lexer reads back as one quote),
+// otherwise the text ends early, does not parse, and the default is dropped at the next catalog load.
+func c15LiteralsEscapeTheirDelimiter(c *Ctx, r string) {
+	f := c.mustFn(r, "embedded/sql.(*Varchar).String")
+	if f == nil {
+		return
+	}
+	isVal := func(v ssa.Value) bool {
+		u, ok := v.(*ssa.UnOp)
+		if !ok || u.Op != token.MUL {
+			return false
+		}
+		fl, _ := fieldOf(u.X)
+		return fl == "Varchar.val"
+	}
+	escaped := false
+	raw := false
+	allInstrs(f, false, func(in ssa.Instruction) {
+		cl, ok := in.(*ssa.Call)
+		if !ok {
+			return
+		}
+		name := calleeName(&cl.Call)
+		if (name == "strings.ReplaceAll" || name == "strings.Replace") && len(cl.Call.Args) >= 3 && dependsOn(cl.Call.Args[0], isVal) {
+			if k1, ok := cl.Call.Args[1].(*ssa.Const); ok && k1.Value != nil && constant.StringVal(k1.Value) == "'" {
+				if k2, ok := cl.Call.Args[2].(*ssa.Const); ok && k2.Value != nil && constant.StringVal(k2.Value) == "''" {
+					escaped = true
+				}
+			}
+			return
+		}
+		// the bare value handed to a formatting / concatenation call
+		for _, a := range cl.Call.Args {
+			if dependsOn(a, func(v ssa.Value) bool {
+				if mi, ok := v.(*ssa.MakeInterface); ok {
+					return isVal(mi.X)
+				}
+				return false
+			}) {
+				raw = true
+			}
+		}
+	})
+	c.check(escaped && !raw, r, fnName(f)+":quote-doubled", c.pos(f.Pos()), "quotes inside the value are doubled before the literal is rendered", "a string literal is rendered with its value as it is: a value holding a quote yields text that does not parse back (a column DEFAULT or a CHECK holding it is lost at the next catalog load)")
 }
